@@ -25,10 +25,10 @@ from ..rigs import script_rig as R
 
 INVARIANTS = ['TypeOK', 'InvOrder', 'InvPerRank', 'InvNoneSkipped', 'InvFailPre', 'InvExitCode',
               'InvPostNeedsExec', 'InvBarrier', 'InvEnv', 'InvDescribedEnv', 'InvLaunch', 'InvOutFiles', 'InvStartup',
-              'InvGpuEnv', 'InvAgree',
+              'InvGpuEnv', 'InvRankId', 'InvAgree',
               'InvProgress']
 DEVS = ['DevEnvUnescaped', 'DevIgnorePreFail', 'DevRetAfterPost', 'DevErrDirFromOut',
-        'DevNamedEnvLast', 'DevStartupAbortsOthers', 'DevGpuWholeOnly']
+        'DevNamedEnvLast', 'DevStartupAbortsOthers', 'DevGpuWholeOnly', 'DevPalsByVersionLine']
 
 
 # ------------------------------------------------------------------------------
@@ -38,10 +38,11 @@ def cfgset(ranks='1..2', pre=2, post=1, prel='{0}', postl='{0}', sync='BOOLEAN',
            sto='{FALSE}', svc='{FALSE}', cfgpre='{FALSE}', prof='{FALSE}'):
     '''TLA+ set expression of task shapes (see ScriptOps.tla for the fields);
        envk: set of key-kind sequences for the environment ev (default: all fresh)'''
-    lm    = lm or '(IF n = 1 THEN {"fork", "mpi"} ELSE {"mpi"})'
+    lm    = lm or ('(IF n = 1 THEN {<<"fork", "none">>, <<"mpi", "ompi">>} '
+                   'ELSE {<<"mpi", "ompi">>})')
     pre_s = pre_set or 'SeqsUpTo(Entries(n), %d)' % pre
     envk  = envk or '{[i \\in 1 .. Len(ev) |-> "fresh"]}'
-    return ('UNION { UNION { { [ranks |-> n, lm |-> lm, pre |-> p, post |-> q, prel |-> a, '
+    return ('UNION { UNION { { [ranks |-> n, lm |-> lm[1], fl |-> lm[2], pre |-> p, post |-> q, prel |-> a, '
             'postl |-> b, sync |-> s, argv |-> av, env |-> ev, envk |-> ek, nenv |-> ne, '
             'omp |-> om, gq |-> g, gtype |-> gt, out |-> o, err |-> oe, sto |-> st, svc |-> sv, '
             'cfgpre |-> cp, prof |-> pf] : '
@@ -53,7 +54,10 @@ def cfgset(ranks='1..2', pre=2, post=1, prel='{0}', postl='{0}', sync='BOOLEAN',
                sto, svc, cfgpre, prof, env, ranks))
 
 
-_ONE  = dict(ranks='{1}', pre=0, post=0, sync='{FALSE}', lm='{"fork"}')
+_ONE  = dict(ranks='{1}', pre=0, post=0, sync='{FALSE}', lm='{<<"fork", "none">>}')
+# MPI flavor of the launcher x what makes the exec script switch on the rank id
+_FLAV = dict(lm='{<<"mpi", f>> : f \\in MpiFlavors}', pre=1, post=0, sync='{FALSE}',
+             gq='{0, 4}', gtype='{"CUDA"}')
 # GPU environment: share / number of GPUs per rank x GPU type x what else makes the
 # script switch per rank (OpenMP export, per-rank pre_exec), every launcher
 _RES  = dict(pre_set='{<<>>, <<REntry({0})>>}', post=0, sync='{FALSE}',
@@ -84,6 +88,7 @@ SLICES = {
         'io'    : cfgset(**_IO),
         'nenv'  : cfgset(**_NENV),
         'opt'   : cfgset(sync='{FALSE}', **_OPT),
+        'flavor': cfgset(**_FLAV),
     },
     'thorough': {
         'ctl1'  : cfgset(ranks='{1}', pre=3, post=2),
@@ -97,6 +102,8 @@ SLICES = {
         'io'    : cfgset(gq='{0, 4}', gtype='{"CUDA"}', **_IO),
         'nenv'  : cfgset(**dict(_NENV, pre_set='{<<>>, <<GEntry>>}')),
         'opt'   : cfgset(omp='BOOLEAN', **_OPT),
+        'flavor': cfgset(**_FLAV),
+        'flavorp': cfgset(**dict(_FLAV, post=1, gq='{0}', gtype='{""}')),
         'optgpu': cfgset(pre=0, post=0, sync='{FALSE}', sto='BOOLEAN', cfgpre='BOOLEAN',
                          gq='{0, 2, 4}', gtype='{"", "CUDA"}', out=_KINDS),
     },
@@ -145,7 +152,8 @@ def parse_runs(out):
 def features(run):
     '''what a run exercises: the sample must contain every feature'''
     cfg, F, xrc = run
-    fs = {'ranks%d' % cfg['ranks'], 'lm:' + cfg['lm'], 'sync%d' % cfg['sync'],
+    fs = {'ranks%d' % cfg['ranks'], 'lm:' + cfg['lm'], 'fl:%s/%d' % (cfg['fl'], cfg['ranks']),
+          'flgpu:%s/%d/%d' % (cfg['fl'], cfg['ranks'], cfg['gq']), 'sync%d' % cfg['sync'],
           'prel%d' % cfg['prel'], 'postl%d' % cfg['postl'], 'omp%d' % cfg['omp'],
           'gpu:%d/%s/%s%d' % (cfg['gq'], cfg['gtype'], cfg['lm'], cfg['ranks']), 'io:%s/%s/%s%d' % (cfg['out'], cfg['err'], cfg['lm'], cfg['ranks']),
           'argc%d' % len(cfg['argv']),
@@ -154,6 +162,8 @@ def features(run):
         fs.add('%s-len%d' % (sig, len(cfg[sig])))
         for i, e in enumerate(cfg[sig]):
             fs.add('%s[%d]:%s%s/%d' % (sig, i, e['k'], ''.join(str(r) for r in e['on']), cfg['ranks']))
+            fs.add('fl%s:%s/%d/%s%s' % (sig, cfg['fl'], cfg['ranks'], e['k'],
+                                        ''.join(str(r) for r in e['on'])))
     for i, c in enumerate(cfg['argv']):
         fs.add('arg[%d]:%s' % (i, c))
     for i, c in enumerate(cfg['env']):
@@ -228,7 +238,7 @@ OTHER         = 'task without hostile environment value'
 
 def classify(case, clause):
     '''input class of a failing run (for known-findings matching)'''
-    if clause.startswith('C10.RpEnv.'):
+    if clause.startswith('C10.RpEnv.') and clause != 'C10.RpEnv.RP_RANK':
         return ANY_TASK
     for val in case['env']:
         if '"' in val or val.endswith('\\') or '\\\\' in val:
@@ -238,6 +248,8 @@ def classify(case, clause):
         return NAMED_ENV_KEY
     if (cfg['out'] == 'abs') != (cfg.get('err', cfg['out']) == 'abs'):
         return MIXED_IO
+    if cfg.get('fl') not in (None, 'none', 'ompi'):
+        return 'MPI launcher of flavor ' + cfg['fl']
     if clause.startswith('C10.Gpu'):
         return GPU_SHARE if 0 < cfg.get('gq', 0) < 4 else GPU_WHOLE
     if cfg.get('sto') and cfg['ranks'] > 1:
@@ -304,7 +316,8 @@ def run(chk, tier, seed):
     if not quick:
         small = {'ctl': cfgset(pre=1, post=1), 'env': SLICES['quick']['env'],
                  'io': SLICES['quick']['io'], 'nenv': SLICES['quick']['nenv'],
-                 'res': SLICES['quick']['res'], 'opt': SLICES['quick']['opt']}
+                 'res': SLICES['quick']['res'], 'opt': SLICES['quick']['opt'],
+                 'flavor': SLICES['quick']['flavor']}
         for dev in DEVS:
             r2 = tlc.run('Script', 'MC', 'MC.cfg', workers=workers, timeout=900,
                          extra_files=mc_files(small, devs=[dev]))
